@@ -215,3 +215,126 @@ theorem appClose_sock (c : Cfg) (s : St) (h : (appClose c s).2 = true) : (appClo
   closeSock_sock c _ h
 
 end WS.Lemmas.App
+
+namespace WS.Lemmas.App
+open WS WS.Model.App
+
+/-- without a ping thread, zeroed `last_ping_tm` / `last_pong_tm` stay zeroed (time, transport, close) -/
+def ZeroLP (s s' : St) : Prop :=
+  s.ping = none → s.lastPing = 0 → s.lastPong = 0 → s'.ping = none ∧ s'.lastPing = 0 ∧ s'.lastPong = 0
+
+theorem ZeroLP.refl (s : St) : ZeroLP s s := fun a b c => ⟨a, b, c⟩
+theorem ZeroLP.trans {a b c : St} (h1 : ZeroLP a b) (h2 : ZeroLP b c) : ZeroLP a c := fun x y z =>
+  let ⟨p, q, r⟩ := h1 x y z; h2 p q r
+
+theorem zlp_id (s s' : St) (h1 : s'.ping = s.ping) (h2 : s'.lastPing = s.lastPing) (h3 : s'.lastPong = s.lastPong) :
+    ZeroLP s s' := fun a b c => ⟨h1 ▸ a, h2 ▸ b, h3 ▸ c⟩
+
+theorem zlp_advance (c : Cfg) (n : Nat) (s : St) (t : Nat) : ZeroLP s (advance c n s t) := by
+  intro hp h1 h2
+  cases n <;> simp [advance, hp, h1, h2]
+
+theorem zlp_waitUntil (c : Cfg) (s : St) (t : Nat) : ZeroLP s (waitUntil c s t).1 := by
+  intro hp h1 h2
+  unfold waitUntil
+  split
+  · have := zlp_advance c (c.horizon + 2) { s with sched := [] } (c.horizon + 1) hp h1 h2
+    simpa [St.emit] using this
+  · exact zlp_advance c _ s t hp h1 h2
+
+theorem zlp_closeTransport (s : St) : ZeroLP s (closeTransport s) := by
+  intro hp h1 h2
+  unfold closeTransport
+  split
+  · split <;> simp_all [St.emit]
+  · exact ⟨hp, h1, h2⟩
+
+theorem zlp_dropSock (s : St) : ZeroLP s (dropSock s) := by
+  intro hp h1 h2
+  unfold dropSock
+  split
+  · split <;> simp_all [St.emit]
+  · exact ⟨hp, h1, h2⟩
+
+theorem zlp_closeWait (c : Cfg) (start : Nat) : ∀ (evs : List TEv) (s : St), ZeroLP s (closeWait c start evs s).1 := by
+  intro evs
+  induction evs with
+  | nil =>
+    intro s
+    rw [closeWait]
+    split
+    · exact zlp_waitUntil c s _
+    · exact ZeroLP.refl s
+  | cons e rest ih =>
+    intro s
+    rw [closeWait]
+    by_cases h1 : s.now - start < secs Gen.closeTimeoutDefault
+    · simp only [h1, ↓reduceIte]
+      by_cases h2 : s.arr + e.dt ≤ s.now + secs Gen.closeTimeoutDefault
+      · simp only [h2, ↓reduceIte]
+        have fw := zlp_waitUntil c s (s.arr + e.dt)
+        rcases hw : waitUntil c s (s.arr + e.dt) with ⟨s1, ok⟩
+        rw [hw] at fw
+        simp only [] at fw ⊢
+        cases ok with
+        | false => simpa using fw
+        | true =>
+          simp only [Bool.not_true, Bool.false_eq_true, ↓reduceIte]
+          have f2 : ZeroLP s1 { s1 with evs := rest, arr := s.arr + e.dt } := zlp_id _ _ rfl rfl rfl
+          cases e.ev with
+          | close b => exact fw.trans f2
+          | eof => exact fw.trans (f2.trans (zlp_closeTransport _))
+          | reset => exact fw.trans (f2.trans (zlp_id _ _ rfl rfl rfl))
+          | protoError => exact fw.trans f2
+          | message op p f => exact fw.trans (f2.trans (ih _))
+          | ping p => exact fw.trans (f2.trans (ih _))
+          | pong p => exact fw.trans (f2.trans (ih _))
+          | payloadError => exact fw.trans (f2.trans (ih _))
+          | part => exact fw.trans (f2.trans (ih _))
+      · simp only [h2, ↓reduceIte]
+        exact zlp_waitUntil c s _
+    · simp only [h1, ↓reduceIte]
+      exact ZeroLP.refl s
+
+theorem zlp_wsClose (c : Cfg) (s : St) : ZeroLP s (wsClose c s).1 := by
+  unfold wsClose
+  cases hs : s.sock with
+  | none => exact ZeroLP.refl s
+  | some w =>
+    simp only []
+    split
+    · exact ZeroLP.refl s
+    · have f1 : ZeroLP s { s with sock := some { w with connected := false } } := zlp_id _ _ rfl rfl rfl
+      split
+      · have f2 : ZeroLP { s with sock := some { w with connected := false } }
+            (({ s with sock := some { w with connected := false } } : St).emit (.wrote Gen.opcodeClose (beN 2 Gen.statusNormal))) :=
+          zlp_id _ _ rfl rfl rfl
+        have f3 := zlp_closeWait c
+          (({ s with sock := some { w with connected := false } } : St).emit (.wrote Gen.opcodeClose (beN 2 Gen.statusNormal))).now
+          (({ s with sock := some { w with connected := false } } : St).emit (.wrote Gen.opcodeClose (beN 2 Gen.statusNormal))).evs
+          (({ s with sock := some { w with connected := false } } : St).emit (.wrote Gen.opcodeClose (beN 2 Gen.statusNormal)))
+        rcases hcw : closeWait c _ _ _ with ⟨s2, ok⟩
+        rw [hcw] at f3
+        simp only [] at f3 ⊢
+        cases ok with
+        | false => exact f1.trans (f2.trans f3)
+        | true => exact f1.trans (f2.trans (f3.trans (zlp_closeTransport _)))
+      · exact f1.trans (zlp_closeTransport _)
+
+theorem zlp_closeSock (c : Cfg) (s : St) : ZeroLP s (closeSock c s).1 := by
+  unfold closeSock
+  split
+  · exact ZeroLP.refl s
+  · have f1 := zlp_wsClose c s
+    rcases hw : wsClose c s with ⟨s1, ok⟩
+    rw [hw] at f1
+    simp only [] at f1 ⊢
+    cases ok with
+    | false => simpa using f1
+    | true => simpa using f1.trans (zlp_dropSock s1)
+
+theorem zlp_appClose (c : Cfg) (s : St) : ZeroLP s (appClose c s).1 := by
+  unfold appClose
+  exact (zlp_id s { s with keepRunning := false } rfl rfl rfl).trans (zlp_closeSock c _)
+
+end WS.Lemmas.App
